@@ -493,8 +493,12 @@ def run_batch(pid: str, tier: str, verif_seed: int, runs: Optional[int], workers
                     fut.cancel()
                 for proc in list(getattr(pool, "_processes", {}).values()):
                     proc.kill()
-                print(f"HARNESS-ERROR batch exceeded wall cap {wall_cap}s", flush=True)
-                return 2
+                if not violating:
+                    print(f"HARNESS-ERROR batch exceeded wall cap {wall_cap}s", flush=True)
+                    return 2
+                # violations seen before the cap are still reported (a change that makes the library hang as well as
+                # misbehave must not turn a verdict into a harness error)
+                print(f"note: batch exceeded wall cap {wall_cap}s after {done_runs} runs; reporting what was found", flush=True)
     except cf.process.BrokenProcessPool as exc:
         print(f"HARNESS-ERROR worker died: {exc}", flush=True)
         return 2
